@@ -386,7 +386,11 @@ func (w *World) runECDSA(step int, q *ecdsaReq) *sigEvent {
 	}
 	ev := &sigEvent{step: step, key: q.key, digest: q.digest, mode: mode, ent: ent, r: r, s: s, v: v, sigDesc: q.desc()}
 	ev.e, _ = ref.DigestToE(q.digest)
-	w.checkSigEvent(ev)
+	// the postconditions call the library's verification, recovery and
+	// builders: a panic in there is the library's, not the harness's
+	if po := protect(func() { w.checkSigEvent(ev) }); po.panicked {
+		w.r.Violate("C08", "verification-panics", opKey, step, "%s produced (r=%x s=%x v=%d); verifying / recovering / re-encoding that signature with the library panicked: %s", q.desc(), r, s, v, po.panicMsg)
+	}
 	w.checkSelfVerifyInvariance(ev)
 	w.recordAndCheckReuse(ev)
 	if mode == "rfc6979" {
@@ -961,7 +965,10 @@ func (w *World) runSchnorr(step, key int, msg []byte, cfg kernel.DevCfg, useNil 
 	if !ref.BIP340Verify(pkx, msg, sig) {
 		w.r.Violate("C14", "model-verify-fails", "SchnorrSign", step, "%s: signature does not verify under the x-only key (reference)", desc)
 	}
-	if !sg.sch.PublicKey().Verify(msg, sig) {
+	var lok bool
+	if po := protect(func() { lok = sg.sch.PublicKey().Verify(msg, sig) }); po.panicked {
+		w.r.Violate("C14", "verification-panics", "SchnorrVerify", step, "%s: verifying the signer's own signature with the library panicked: %s", desc, po.panicMsg)
+	} else if !lok {
 		w.r.Violate("C14", "lib-verify-rejects", "SchnorrVerify", step, "%s: the library rejects the signer's own signature", desc)
 	}
 	w.schs = append(w.schs, &schEvent{key: key, aux: aux, msg: msg, sig: sig})
